@@ -1111,11 +1111,28 @@ class Interp:
         if isinstance(m, FuncInfo):
             return Val(kind="bound", fn=m, base=base, dim=D0)
         if isinstance(m, tuple) and m[0] == "classattr":
-            from .entries import stored_attrs
-            if attr not in stored_attrs(obj.cls):
+            if attr not in self._rebound_attrs(obj.cls):
                 return self.getattr_val(Val(kind="class", extra=obj.cls, dim=D0), attr, st, node)
             # a class-level default (`_x = None`) shadowed by an instance attribute stored somewhere in the hierarchy
         return self.read_field(base, attr, st, node)
+
+    def _rebound_attrs(self, cls):
+        """attributes rebound on the instance (`self.x = ...`) somewhere in the hierarchy: they shadow a class-level default.
+        (`self.x[k] = v` mutates the class-level object itself and does not shadow it.)"""
+        cache = self.index.__dict__.setdefault("_rebound_attrs", {})
+        if cls.name not in cache:
+            out = set()
+            for c in cls.mro:
+                fns = list(c.methods.values()) + [x for p in c.props.values() for x in (p.getter, p.setter) if x]
+                for f in fns:
+                    for n in ast.walk(f.node):
+                        tgts = n.targets if isinstance(n, ast.Assign) else ([n.target] if isinstance(n, (ast.AugAssign, ast.AnnAssign)) else [])
+                        for t in tgts:
+                            for e in (t.elts if isinstance(t, (ast.Tuple, ast.List)) else [t]):
+                                if isinstance(e, ast.Attribute) and isinstance(e.value, ast.Name) and e.value.id == "self":
+                                    out.add(e.attr)
+            cache[cls.name] = out
+        return cache[cls.name]
 
     def read_prop(self, base: Val, prop: PropInfo, st, node) -> Val:
         if prop.getter is None:
